@@ -98,6 +98,15 @@ def gen(tier, rng):
                 for mode in (1, 2):
                     add(api="deflate", inp=data, level=level, wrap=[0, 3][(level + mode) % 2], lbuf=3, dictmode=mode, dct=dct, mem=level % 3,
                         calls=[[len(data), 1 << 16, 0, 1]], meta={"family": "dict-longer-than-window-far-edge", "cpu": CPUS[(level + mode) % len(CPUS)], "dl": dl})
+    # (b4) the window starts afresh in the middle of a stream (FULL_FLUSH; several one-shot pieces on one context) with the level buffer at an
+    #      unaligned address: what the match finders held before the restart must not be reachable (no match before the first byte of a piece)
+    for cls, n in [("text", 6000), ("records", 20000)]:
+        inp = igz.corpus(rng, cls, n)
+        for level in (1, 2, 3):
+            for lb in (7, 8, 9, 10):
+                if tier == "quick" and (level + lb) % 2 and cls == "records": continue
+                add(api="deflate", inp=inp[:n // 2] + inp[:n // 2], level=level, wrap=[0, 1, 3][(level + lb) % 3], lbuf=lb, mem=lb % 3, prefill=lb % 3,
+                    calls=[[n // 2, 1 << 17, 2, 0], [n // 2, 1 << 17, 0, 1]], tail_ao=1 << 17, cap=60, meta={"family": "window-restart-unaligned-level-buffer", "cpu": "host"})
     # (c) dictionary calls in a wrong state must be refused; the stream must come out as if they had not been made
     for level in range(4):
         data = igz.corpus(rng, "text", 3000); dct = igz.corpus(rng, "text", 500)
